@@ -69,7 +69,15 @@ contract(
     loops={
         0: Loop(over='source_nodes', invariant=[
             "all(" + _NOPAIR + " for i in range(_i0) for j in range(len(target_nodes)) "
-            "for a in range(len(source_nodes[keys(source_nodes)[i]])) for b in range(len(target_nodes[keys(target_nodes)[j]])))"]),
+            "for a in range(len(source_nodes[keys(source_nodes)[i]])) for b in range(len(target_nodes[keys(target_nodes)[j]])))"],
+            exit_lemmas=[
+                # every node that carries the attribute is a key of the dictionary, at the position the invariant talks about
+                "forall_int(lambda s: implies(has_attr(source, s, 'bonding'), s in source_nodes and 0 <= key_index(source_nodes, s) and "
+                "key_index(source_nodes, s) < len(source_nodes) and keys(source_nodes)[key_index(source_nodes, s)] == s and "
+                "source_nodes[s] == attr(source, s, 'bonding')))",
+                "forall_int(lambda t: implies(has_attr(target, t, 'bonding'), t in target_nodes and 0 <= key_index(target_nodes, t) and "
+                "key_index(target_nodes, t) < len(target_nodes) and keys(target_nodes)[key_index(target_nodes, t)] == t and "
+                "target_nodes[t] == attr(target, t, 'bonding')))"]),
         1: Loop(over='target_nodes', invariant=[
             "all(" + _NOPAIR.replace('[i]', '[_i0]') + " for j in range(_i1) "
             "for a in range(len(source_nodes[keys(source_nodes)[_i0]])) for b in range(len(target_nodes[keys(target_nodes)[j]])))"]),
